@@ -356,9 +356,10 @@ def add_worm_gear_mating(
     slave.mating_role = MatingSlave
     slave.master_gear_ratio = gear_ratio
     slave.master_gear_efficiency = efficiency
-    worm_gear.self_locking = \
-        friction_coefficient > worm_gear.pressure_angle.cos() * \
+    worm_gear.self_locking = bool(
+        friction_coefficient > worm_gear.pressure_angle.cos() *
         worm_gear.helix_angle.tan()
+    )
 
     worm_wheel = slave if worm_gear is master else master
     if worm_wheel.bending_stress_is_computable:
